@@ -126,8 +126,12 @@ func (h *Host) HostCall(pc ProgramCounter, instrCount uint64) (psi_result Psi_H_
 			}
 		}
 		omegaResult := omega(input)
+		opName := "unknown"
+		if int(input.Operation) >= 0 && int(input.Operation) < len(hostCallName) {
+			opName = hostCallName[input.Operation]
+		}
 		pvmLogger.Debugf("%s host-call return: %d, gas : %d\nRegisters: %v\n",
-			hostCallName[input.Operation], omegaResult.ExitReason.GetReasonType(), h.Interpreter.Gas, h.Interpreter.Registers)
+			opName, omegaResult.ExitReason.GetReasonType(), h.Interpreter.Gas, h.Interpreter.Registers)
 
 		switch omegaResult.ExitReason {
 		case ExitContinue:
